@@ -3,6 +3,7 @@ import HT.Model.Packet
 import HT.Model.Canary
 import HT.Model.Knock
 import HT.Model.RotFile
+import HT.Model.ServerDrv
 /-!
 Line-protocol driver: one case per input line, `<model> <args…>`; one output line
 per case.  Core Lean only (so it links as an executable).
@@ -18,6 +19,8 @@ def dispatch (line : String) : String :=
   | "uset" :: args => Knock.usetDriver args
   | "knock" :: args => Knock.knockDriver args
   | "rot" :: args => Rot.driver args
+  | "srv" :: args => Srv.srvDriver args
+  | "bus" :: args => Srv.busDriver args
   | _ => "bad-model"
 
 partial def loop (h : IO.FS.Stream) (out : IO.FS.Stream) : IO Unit := do
